@@ -789,6 +789,9 @@ func c20RealServer(r *ev.Run) {
 // connection with the n-th record stream. Oracle as for TLS: defaults when no server/port
 // record is sent, nothing of an earlier exchange in a later one, keys = the server's
 // exporter values.
+// c20Stall ends a scripted answer after which the server stops talking without closing the stream.
+var c20Stall = peer.KERecord(0x7f01, false, []byte("stall"))
+
 func c20QUIC(r *ev.Run) {
 	ia, _ := addr.ParseIA("1-ff00:0:110")
 	srvIP, cliIP := blockIP(r, 20, 41), blockIP(r, 20, 42)
@@ -847,6 +850,11 @@ func c20QUIC(r *ev.Run) {
 				c2s, s2c = append(c2s, d.C2sKey), append(s2c, d.S2cKey)
 				mu.Unlock()
 				_, _ = stream.Write(script)
+				if bytes.HasSuffix(script, c20Stall) {
+					// a server that stops talking with the stream open (the marker is an unknown non-critical
+					// record, so what was sent before it is all the client can go by)
+					time.Sleep(9 * time.Second)
+				}
 				_ = stream.Close()
 				_, _ = io.Copy(io.Discard, stream)
 			}()
@@ -875,6 +883,11 @@ func c20QUIC(r *ev.Run) {
 		{"no server and no port record", peer.KEMessage(15, "", 0, c20Cookies(3, 8)), true, def, 10123, 8},
 		{"error record after the cookies", append(peer.KEMessage(15, other, 7777, c20Cookies(4, 8))[:len(peer.KEMessage(15, other, 7777, c20Cookies(4, 8)))-4], append(peer.KERecord(2, true, []byte{0, 1}), peer.KERecord(0, true, nil)...)...), false, "", 0, 0},
 		{"defaults again", peer.KEMessage(15, "", 0, c20Cookies(5, 8)), true, def, 10123, 8},
+		{"algorithm and cookies, then silence with the stream open", func() []byte {
+			m := peer.KEMessage(15, other, 7777, c20Cookies(6, 8))
+			return append(m[:len(m)-4], c20Stall...) // without the end-of-message record
+		}(), false, "", 0, 0},
+		{"and a conformant exchange after it", peer.KEMessage(15, "", 0, c20Cookies(7, 8)), true, def, 10123, 8},
 	}
 	for _, st := range steps {
 		scripts = append(scripts, st.stream)
@@ -887,6 +900,10 @@ func c20QUIC(r *ev.Run) {
 	for i, st := range steps {
 		id := fmt.Sprintf("quic%d", i)
 		ctx, cancel := context.WithTimeout(context.Background(), 10*time.Second)
+		if strings.Contains(st.name, "silence") {
+			cancel()
+			ctx, cancel = context.WithCancel(context.Background()) // a caller without a deadline of its own: the fetcher's timeout applies
+		}
 		d, err := f.FetchData(ctx)
 		cancel()
 		r.Eval(1)
